@@ -539,3 +539,77 @@ def _visit(ex, v, args, kwargs, node):
     if not isinstance(c, VCtx):
         raise Unsupported("visit of a non-context")
     return VForm(sem(c.t))
+
+
+# ---------------------------------------------------------------------------
+# dynamic attributes (C20: save_ocf detaches and restores solver attributes)
+# ---------------------------------------------------------------------------
+def _dyn(ex, o):
+    if not (isinstance(o, VRef) and ex.st.obj(o.ref)["kind"] == "dyn"):
+        raise Unsupported("hasattr/getattr/setattr on a non-dynamic object")
+    return ex.st.obj(o.ref)
+
+
+@fn("builtins.hasattr", tb="TB-py")
+def _hasattr(ex, args, kwargs, node):
+    o, name = args
+    return VBool(z3.Select(_dyn(ex, o)["present"], name.t))
+
+
+@fn("builtins.getattr", tb="TB-py")
+def _getattr(ex, args, kwargs, node):
+    o, name = args[:2]
+    d = _dyn(ex, o)
+    if len(args) < 3:
+        ex.oblige("noraise.getattr", node, z3.Select(d["present"], name.t))
+    return VOpaque("attr", z3.Select(d["val"], name.t))
+
+
+@fn("builtins.setattr", tb="TB-py")
+def _setattr(ex, args, kwargs, node):
+    o, name, v = args
+    d = _dyn(ex, o)
+    vt = OPQ_NONE if isinstance(v, VNone) else getattr(v, "t", None)
+    if vt is None or vt.sort() != Opq:
+        raise Unsupported("setattr value")
+    ex.st.update(o.ref, present=z3.Store(d["present"], name.t, True), val=z3.Store(d["val"], name.t, vt))
+    return VNone()
+
+
+@meth("dict", "items", tb="TB-py")
+def _items2(ex, d, args, kwargs, node):
+    return VSeq(d.KL.len(d.keys), lambda i: VTuple([d.kt.wrap(d.KL.at(d.keys, i)), d.et.wrap(z3.Select(d.val, d.KL.at(d.keys, i)))]))
+
+
+def _may_raise(ex, node, name):
+    if ex.choose():
+        e = RaiseExc(name)
+        e.node = node
+        raise e
+
+
+# TB-io: open / dump may fail at any point and do not modify the object being dumped
+@fn("pathlib.Path", tb="TB-io")
+def _path(ex, args, kwargs, node):
+    v = VOpaque("path")
+    v.kind = "path"
+    return v
+
+
+@fn("pickle.dump", "json.dump", tb="TB-io")
+def _dump(ex, args, kwargs, node):
+    _may_raise(ex, node, "Exception")
+    return VNone()
+
+
+@meth("path", "open", tb="TB-io")
+def _popen(ex, p, args, kwargs, node):
+    _may_raise(ex, node, "OSError")
+    return VOpaque("file")
+
+
+@meth("concdict", "items", tb="TB-py")
+def _citems(ex, d, args, kwargs, node):
+    r = VSeq(z3.IntVal(len(d.items)), lambda i: None)
+    r.concrete = [VTuple([k, v]) for k, v in d.items]
+    return r
